@@ -152,6 +152,12 @@ class IRModule(nn.Module):
                 v = T.relu(a[0])
             elif k == "mulc":
                 v = a[0] * p["c"]
+            elif k == "inplace_stmt":
+                # an in-place op written as a bare statement on a fresh tensor: its result node has no users in the graph
+                v = a[0] * 1.0
+                v.add_(p["c"])
+                if p.get("clamp"):
+                    v.clamp_(min=-1.5)
             elif k == "mul":
                 v = a[0] * a[1]
             elif k == "neg":
@@ -197,7 +203,7 @@ UNMAPPED = ["tanh", "relu", "mulc", "reshape", "neg"]
 def gen_program(rng: random.Random, n_ops: int, *, residuals: int = 2, wrappers: bool = True, attention: bool = True,
                 losses: bool = False, fan_out: bool = False, lists: bool = False, nonfloat: bool = False,
                 embedding: bool = False, multi_out: bool = False, plain_adds: bool = True,
-                side_paths: bool = False, kw_tensors: bool = False) -> Program:
+                side_paths: bool = False, kw_tensors: bool = False, inplace_stmts: bool = False) -> Program:
     ops: List[Op] = []
     params: Dict[str, Tuple[int, ...]] = {}
     modules: Dict[str, Tuple[str, Tuple]] = {}
@@ -235,6 +241,8 @@ def gen_program(rng: random.Random, n_ops: int, *, residuals: int = 2, wrappers:
             choices += ["cat_slice", "stack_mean", "rot_half", "neg_kw"]
         if nonfloat:
             choices += ["argmax_gather"]
+        if inplace_stmts:
+            choices += ["inplace_stmt", "inplace_stmt"]
         k = rng.choice(choices)
         if k == "mlp":
             # rectangular projections (fan_in != fan_out): up to width H2, an optional activation, back down to H
@@ -278,6 +286,8 @@ def gen_program(rng: random.Random, n_ops: int, *, residuals: int = 2, wrappers:
             ops.append(Op("sdpa", [q, kk, src], p))
         elif k == "mulc":
             ops.append(Op(k, [src], {"c": rng.choice([0.5, 2.0, -1.0])}))
+        elif k == "inplace_stmt":
+            ops.append(Op(k, [src], {"c": rng.choice([1.0, -0.5, 2.5]), "clamp": rng.random() < 0.4}))
         elif k in ("cat_slice", "stack_mean"):
             ops.append(Op("tanh", [src]))
             ops.append(Op(k, [src, nvals() - 1]))
